@@ -128,8 +128,8 @@ func CoerceInput(s *gen.Schema, t *gen.TypeRef, v interface{}) (interface{}, Ver
 			}
 			return int(n), Accept
 		case string:
-			if _, err := strconv.ParseFloat(n, 64); err != nil {
-				return nil, Reject // non-numeric
+			if f, err := strconv.ParseFloat(n, 64); err != nil || math.IsNaN(f) || math.IsInf(f, 0) {
+				return nil, Reject // non-numeric ("NaN" is not a number, "Inf" no 32-bit integer)
 			}
 			return nil, Unspecified
 		case bool:
